@@ -535,6 +535,7 @@ pub fn one_run(ctx: &Ctx, out: &mut Outcome, run_seed: u64) {
         allow_large: r.chance(1, 8),
         tail_ticks: r.range(0, 20),
         liveness: false,
+        flood: false,
         max_len: 100_000,
     };
     let mut mons: Vec<Box<dyn Monitor>> = vec![Box::new(ReleaseOracle::new()), Box::new(CoverageMonitor::new()), Box::new(SizeMonitor { prop: "C13" })];
